@@ -10,6 +10,7 @@ import SV.FactsProofs
 import SV.TxCache.SelProofs
 import SV.TxCache.OrderProofs
 import SV.TxCache.ListProofs
+import SV.TxCache.AddCommute
 namespace SV.Props.C14
 open SV SV.TxCache
 
@@ -39,5 +40,36 @@ theorem concurrent_adds_sorted (t : Tx) (l : List Tx) (hs : ListSorted l)
     (hn : ¬ ∃ c ∈ l, c.nonce = t.nonce ∧ c.gasPrice = t.gasPrice ∧ c.hash = t.hash) :
     ListSorted (orderedInsert t l) ∧ (orderedInsert t l).Perm (t :: l) :=
   ⟨orderedInsert_sorted t l hs hn, orderedInsert_perm t l⟩
+
+/-! ### concurrent AddTx calls: every call performs both index updates inside ONE critical section (`mutTxOperation`), so a set
+    of concurrent calls runs as SOME sequential order of them; without removals, eviction and per-sender trimming the
+    outcome is the same for every order -/
+
+/-- all transactions present (listed under their sender AND reachable by hash), nothing else, every list correctly
+    ordered and a permutation of that sender's transactions; the counters equal the number / total size / senders -/
+theorem concurrent_adds_all_present_and_ordered (U : Bytes → Tx) (cfg : Config) (txs : List Tx)
+    (hnd : (txs.map (·.hash)).Nodup) (hw : ∀ t ∈ txs, WfTx U t) (hl : NoLimitHit cfg txs) :
+    let p := addAll cfg txs
+    (∀ t ∈ txs, (∃ l, alookup t.sender p.lists = some l ∧ t ∈ l) ∧ alookup t.hash p.byHash = some t) ∧
+    (∀ k x, alookup k p.byHash = some x → x ∈ txs ∧ x.hash = k) ∧
+    (∀ s l, alookup s p.lists = some l → ListSorted l ∧ l.Perm (txs.filter (fun t => decide (t.sender = s)))) ∧
+    (∀ s, alookup s p.lists = none → txs.filter (fun t => decide (t.sender = s)) = []) ∧
+    ((p.lists.map (·.1)).Nodup ∧ ∀ s, s ∈ p.lists.map (·.1) ↔ ∃ t ∈ txs, t.sender = s) ∧
+    p.cntTx = (txs.length : Int) ∧ p.numBytes = (((txs.map (·.size)).sum : Nat) : Int) ∧
+    p.cntSenders = (p.lists.length : Int) := adds_all_present_sorted U cfg txs hnd hw hl
+/-- the observable pool does not depend on the order in which the concurrent calls were executed -/
+theorem concurrent_adds_commute (U : Bytes → Tx) (cfg : Config) (txs txs' : List Tx) (hp : txs.Perm txs')
+    (hnd : (txs.map (·.hash)).Nodup) (hw : ∀ t ∈ txs, WfTx U t) (hl : NoLimitHit cfg txs) :
+    (∀ s, alookup s (addAll cfg txs).lists = alookup s (addAll cfg txs').lists) ∧
+    (∀ k, alookup k (addAll cfg txs).byHash = alookup k (addAll cfg txs').byHash) ∧
+    (addAll cfg txs).lists.Perm (addAll cfg txs').lists ∧
+    (addAll cfg txs).cntTx = (addAll cfg txs').cntTx ∧
+    (addAll cfg txs).numBytes = (addAll cfg txs').numBytes ∧
+    (addAll cfg txs).cntSenders = (addAll cfg txs').cntSenders := adds_commute U cfg txs txs' hp hnd hw hl
+/-- …and neither does a subsequent selection -/
+theorem selection_after_concurrent_adds (U : Bytes → Tx) (cfg : Config) (txs txs' : List Tx) (hp : txs.Perm txs')
+    (hnd : (txs.map (·.hash)).Nodup) (hw : ∀ t ∈ txs, WfTx U t) (hl : NoLimitHit cfg txs) (s : Session) (q : SelParams) :
+    select Variant.current (addAll cfg txs) s q = select Variant.current (addAll cfg txs') s q :=
+  SV.TxCache.selection_after_concurrent_adds U cfg txs txs' hp hnd hw hl s q
 
 end SV.Props.C14
